@@ -58,7 +58,9 @@ POOL = ["", " ", "'", '"', "'a", "(", ")", "((", "[", "{", "\\", "a\\", "...", "
         "-inf", "1,", ",", ",,", "a,,b", "a b", "a.b", ".", "..", "*", "[a", "a)", "(?P<x>", "(?", "a{", "+", "\\1", "%", "%%", "DD.DD", "YYYY YY", "MMm",
         "count", "x < ", "x ==", "x < y", "x <> 1", "x < 1; import os", "x < '1'", "x.__class__", "lambda", "None", "True", "\t", "\n", "a\nb", "\r",
         " a", "a ", "0", "-1", "1.5", "01", "1_0", "١", "TAB", "utf-8", "crlf", "none", "x" * 300,
-        "b'a'", "r'x'", "u'a'", "rb'a'", "f'x'", 'b"a"...3', "a'b'", "\\\na < 3", "\\\n1...2", "rot13", "hex", "undefined", "utf-16", "punycode", "5, 5", "5...5, 5", "1...5, 5...9"]
+        "b'a'", "r'x'", "u'a'", "rb'a'", "f'x'", 'b"a"...3', "a'b'", "\\\na < 3", "\\\n1...2", "rot13", "hex", "undefined", "utf-16", "punycode", "5, 5", "5...5, 5", "1...5, 5...9",
+        # letters whose case mappings are unusual (lower / upper / casefold disagree, change the length, or leave the script)
+        "\u13a0", "csv\uab70", "\u0130", "\u00df", "\u212a", "\ufb01xed", "\u01c5", "\u1e9e", "\U00010400"]
 BASES = {
     "delimited": [["D", "Format", "Delimited"], ["D", "Header", "1"], ["D", "Item delimiter", ";"], ["D", "Allowed characters", "32..."], ["D", "Encoding", "utf-8"],
                   ["F", "a", "12", "", "1...5", "Integer", "0...99999"], ["F", "b", "x", "X", "", "Choice", "x, y"], ["F", "c", "1.5", "", "", "Decimal", "0...10"],
